@@ -213,7 +213,9 @@ class Options:
     max_while: int = 2
     max_concrete_iter: int = 24
     max_steps: int = 20000
-    inline: Any = None  # set of quals | callable(FuncInfo)->bool | None (only closures / lambdas)
+    inline: Any = None  # set of quals | callable(FuncInfo)->bool, in addition to the default policy
+    inline_private: bool = True  # default policy: private helpers (_name) of the analysed function's own module are inlined
+    opaque: Any = None  # set of quals never inlined
     raising: Any = None  # callable(effect-data dict)->bool : may this call raise?  (forks)
     type_facts: dict = field(default_factory=dict)  # term key -> set of class quals (known type)
     facts: dict = field(default_factory=dict)  # decision key -> bool (assumed)
@@ -221,6 +223,7 @@ class Options:
     self_cls: Optional[str] = None
     record_unbound: bool = True
     havoc_on_call: bool = False
+    root_module: str = ""
 
 
 from .evalx import EvalMixin  # noqa: E402
@@ -284,6 +287,7 @@ class Interp:
         """All paths of the function.  `env` presets heap access paths (e.g.
         'state.outputs': {...}); `args` binds parameters to values (default: Sym(param))."""
         fi = qual if isinstance(qual, FuncInfo) else self.repo.func(qual)
+        self.opts.root_module = fi.module.name
         paths: list[Path] = []
         stack: list[list[bool]] = [[]]
         while stack:
@@ -333,3 +337,35 @@ class Interp:
             if len(paths) > self.opts.max_paths:
                 raise AnalysisError(f"path bound {self.opts.max_paths} exceeded in {fi.qual}")
         return paths
+
+
+def module_globals(repo: Repo, modname: str, opts: dict | None = None) -> dict:
+    """Abstractly evaluates the top-level statements of a module (assignments, loops building tables) and returns the final
+    values of its globals.  Import / def / class statements bind references only."""
+    m = repo.module(modname)
+    fn = ast.FunctionDef(name="<module>", args=ast.arguments(posonlyargs=[], args=[], kwonlyargs=[], kw_defaults=[], defaults=[]),
+                         body=[st for st in m.tree.body if not isinstance(st, (ast.Import, ast.ImportFrom))], decorator_list=[], lineno=1)
+    fi = FuncInfo(modname, fn, m, None, None)
+    for q, f2 in repo.funcs.items():
+        if f2.parent is None and f2.cls is None and f2.module is m:
+            fi.nested[f2.name] = f2
+    run = Run(repo, Options(**(opts or {})), [])
+    run.opts.root_module = modname
+    fr = Frame(fi, None, 0)
+    fr.declared = set()
+    out = {}
+    for st in fn.body:
+        try:
+            if isinstance(st, ast.ClassDef):
+                fr.locals[st.name] = Cell(ClassRef(f"{modname}.{st.name}"))
+            elif isinstance(st, (ast.FunctionDef, ast.AsyncFunctionDef)):
+                fr.locals[st.name] = Cell(FuncRef(repo.funcs[f"{modname}.{st.name}"]))
+            else:
+                run.exec_stmt(st, fr)
+        except _Signal:
+            break
+        except AnalysisError:
+            continue
+    for k, c in fr.locals.items():
+        out[k] = c.value
+    return out
